@@ -606,7 +606,9 @@ static int push_args(Node *node) {
     switch (ty->kind) {
     case TY_STRUCT:
     case TY_UNION:
-      if (ty->size > 16) {
+      if (ty->size == 0) {
+        // An empty aggregate takes neither a register nor memory.
+      } else if (ty->size > 16) {
         arg->pass_by_stack = true;
         stack += align_to(ty->size, 8) / 8;
       } else {
@@ -1073,7 +1075,7 @@ static void gen_expr(Node *node) {
       switch (ty->kind) {
       case TY_STRUCT:
       case TY_UNION:
-        if (ty->size > 16)
+        if (ty->size == 0 || ty->size > 16)
           continue;
 
         bool fp1 = has_flonum1(ty);
@@ -1533,6 +1535,9 @@ static void assign_lvar_offsets(Obj *prog) {
       switch (ty->kind) {
       case TY_STRUCT:
       case TY_UNION:
+        // An empty aggregate takes neither a register nor memory.
+        if (ty->size == 0)
+          continue;
         if (ty->size <= 16) {
           bool fp1 = has_flonum1(ty);
           bool fp2 = ty->size > 8 && has_flonum2(ty);
@@ -1751,6 +1756,8 @@ static void emit_text(Obj *prog) {
       case TY_STRUCT:
       case TY_UNION:
         assert(ty->size <= 16);
+        if (ty->size == 0)
+          break;
         if (has_flonum(ty, 0, 8, 0))
           store_fp(fp++, var->offset, MIN(8, ty->size));
         else
